@@ -251,18 +251,27 @@ func runC16Conc(c C16Conc, ev *vt.Ev) *vt.Failure {
 	defer s.Close()
 	const now = c16Now
 	s.SetClock(now)
-	fams := map[string]*bt.GC{"f": {K: "maxv", N: 1}, "g": nil}
+	const recent = now - 1000000 // retained by the max-age rule
+	fams := map[string]*bt.GC{"f": {K: "union", Subs: []bt.GC{{K: "maxv", N: 2}, {K: "maxage", Sec: 3600}}}, "g": nil}
 	if r := s.Exec(&bt.Op{K: "CreateTable", Table: "t", Fams: []bt.FamDef{{Name: "f", GC: fams["f"]}, {Name: "g"}}}); !r.OK() {
 		return vt.Failf("C16", "setup: %+v", r)
 	}
 	init := map[string]bt.MRow{}
 	var entries []bt.Entry
 	for i := 0; i < c.NRows; i++ {
-		row := bt.MRow{"f": {"q": {2000: "new"}}, "g": {"keep": {1000: "k"}}}
-		muts := []bt.Mut{{K: "set", Fam: "f", Qual: "q", TS: 2000, Val: "new"}, {K: "set", Fam: "g", Qual: "keep", TS: 1000, Val: "k"}}
-		if i%c.Condemn == 0 {
-			row["f"]["q"][1000] = "old"
-			muts = append(muts, bt.Mut{K: "set", Fam: "f", Qual: "q", TS: 1000, Val: "old"})
+		var row bt.MRow
+		var muts []bt.Mut
+		if i%5 == 3 {
+			// every cell of this row is condemned: the pass leaves the row without cells
+			row = bt.MRow{"f": {"q": {1000: "old"}}}
+			muts = []bt.Mut{{K: "set", Fam: "f", Qual: "q", TS: 1000, Val: "old"}}
+		} else {
+			row = bt.MRow{"f": {"q": {recent: "new"}}, "g": {"keep": {1000: "k"}}}
+			muts = []bt.Mut{{K: "set", Fam: "f", Qual: "q", TS: recent, Val: "new"}, {K: "set", Fam: "g", Qual: "keep", TS: 1000, Val: "k"}}
+			if i%c.Condemn == 0 {
+				row["f"]["q"][1000] = "old"
+				muts = append(muts, bt.Mut{K: "set", Fam: "f", Qual: "q", TS: 1000, Val: "old"})
+			}
 		}
 		init[string(c16Key(i))] = row
 		entries = append(entries, bt.Entry{Key: c16Key(i), Muts: muts})
